@@ -17,6 +17,7 @@ import (
 	"context"
 	"crypto/sha256"
 	"fmt"
+	"math/big"
 	"net"
 	"os"
 	"path/filepath"
@@ -33,6 +34,7 @@ import (
 	"github.com/btcsuite/btcd/btcec/v2"
 	"github.com/btcsuite/btcd/btcutil/v2"
 	"github.com/lightningnetwork/lnd/channeldb"
+	"github.com/lightningnetwork/lnd/graph/db/models"
 	"github.com/lightningnetwork/lnd/htlcswitch/hop"
 	"github.com/lightningnetwork/lnd/input"
 	"github.com/lightningnetwork/lnd/invoices"
@@ -61,6 +63,25 @@ type c08Pay struct {
 	// through the forwarder (a "shard" pair). The receiver holds one invoice, that of
 	// payment k.
 	HashOf int `json:"hash_of,omitempty"`
+	// FeeDelta (msat, signed; only read in spaces with a Policy): the sender offers on the
+	// first hop exactly what the receiver is to get plus the fee Bob's configured policy
+	// demands (exact integer arithmetic, see c08RequiredFee) plus FeeDelta: 0 = exactly
+	// sufficient, -1 = one millisatoshi short, +1 = one too many.
+	FeeDelta int64 `json:"fee_delta,omitempty"`
+}
+
+// c08Policy is the forwarding-policy dimension: what Bob's operator configured on BOTH of
+// his channels (each one is the incoming channel of one direction and the outgoing channel
+// of the other). Zero fields keep the fixture's value (base fee 1 sat, rate 0, no inbound
+// fee). A real node hands the policy to the link when it creates it, also after a restart;
+// the harness applies it to every link it (re-)creates before the link can process anything.
+type c08Policy struct {
+	// InboundBase / InboundRate: the inbound fee (msat / parts per million, signed: a
+	// negative value is a discount) charged for HTLCs that ARRIVE on the channel.
+	InboundBase int32 `json:"inbound_base,omitempty"`
+	InboundRate int32 `json:"inbound_rate,omitempty"`
+	// FeeRate: proportional part (ppm) of the outbound fee.
+	FeeRate int64 `json:"fee_rate,omitempty"`
 }
 
 // c08Scn is one exploration space: a payment batch plus the budgets of the search.
@@ -135,6 +156,23 @@ type c08Scn struct {
 	// update of its own that no signature covers yet (a forwarded Add that has just left
 	// the mailbox): the window in which a connection loss leaves the Add in the mailbox.
 	FirstFaultPending bool `json:"first_fault_pending,omitempty"`
+
+	// ---- dimensions added after the round-e misses --------------------------------------
+
+	// Policy: Bob's forwarding policy (inbound fee or discount, proportional outbound fee);
+	// payments then carry FeeDelta. With it the policy clauses of the oracle have both an
+	// accepting and a rejecting side: "forwarded => the fee Bob keeps covers what his policy
+	// demands" and "rejected with fee_insufficient => it does not".
+	Policy *c08Policy `json:"policy,omitempty"`
+	// SlowRestart names a wire towards Bob ("A>B" or "C>B") that is frozen, at no cost to
+	// the deviation budget, whenever Bob has just restarted (rb, cb:k): that peer is the
+	// slower one to reconnect, the OTHER connection is re-established first. (Default order
+	// without it: oldest message first, i.e. Alice's channel_reestablish before Carol's.)
+	// The order decides what a link that replays its forwarding packages finds: with the
+	// incoming connection of a payment slow, the outgoing link is already eligible when the
+	// incoming link hands the replayed Add to the switch, so the replay runs through the
+	// switch's policy check instead of ending in unknown_next_peer.
+	SlowRestart string `json:"slow_restart,omitempty"`
 }
 
 func c08In(list []string, v string) bool {
@@ -541,6 +579,17 @@ func (w *c08World) tuneLink(e int) {
 	if (e == 1 || e == 2) && w.scn.LinkFeeExposureSat > 0 {
 		l.cfg.MaxFeeExposure = lnwire.NewMSatFromSatoshis(btcutil.Amount(w.scn.LinkFeeExposureSat))
 	}
+	if pol := w.scn.Policy; (e == 1 || e == 2) && pol != nil {
+		// through the link's own (locked) setter, the way the node applies a policy
+		l.RLock()
+		p := l.cfg.FwrdingPolicy
+		l.RUnlock()
+		p.InboundFee = models.InboundFee{Base: pol.InboundBase, Rate: pol.InboundRate}
+		if pol.FeeRate > 0 {
+			p.FeeRate = lnwire.MilliSatoshi(pol.FeeRate)
+		}
+		l.UpdateForwardingPolicy(p)
+	}
 	var bad []lntypes.Hash
 	for k, p := range w.scn.Pays {
 		at := -1
@@ -579,6 +628,42 @@ func (w *c08World) tuneLink(e int) {
 		}
 		return out, nil
 	}
+}
+
+// c08RequiredFee evaluates the fee rule of the forwarding policy in unbounded integers
+// (the rule of C09's statement, as documented in graph/db/models and BOLT 7): to forward
+// `out` msat the incoming HTLC must carry at least
+//
+//	outFee = base + floor(out*rate/1e6)
+//	inFee  = inboundBase + trunc0(inboundRate*(out+outFee)/1e6)   (a discount rounds toward zero)
+//
+// more than `out`. The inputs are the operator's configuration (the scenario's Policy over
+// the fixture's global policy), never anything read back from the links under test.
+func (w *c08World) c08RequiredFee(out int64) *big.Int {
+	gp := w.hn.globalPolicy
+	base, rate := new(big.Int).SetUint64(uint64(gp.BaseFee)), new(big.Int).SetUint64(uint64(gp.FeeRate))
+	var inBase, inRate int64
+	if pol := w.scn.Policy; pol != nil {
+		inBase, inRate = int64(pol.InboundBase), int64(pol.InboundRate)
+		if pol.FeeRate > 0 {
+			rate = big.NewInt(pol.FeeRate)
+		}
+	}
+	million := big.NewInt(1_000_000)
+	o := big.NewInt(out)
+	outFee := new(big.Int).Mul(o, rate)
+	outFee.Div(outFee, million) // operands non-negative: floor
+	outFee.Add(outFee, base)
+	inFee := new(big.Int).Mul(big.NewInt(inRate), new(big.Int).Add(o, outFee))
+	inFee.Quo(inFee, million) // Quo truncates toward zero
+	inFee.Add(inFee, big.NewInt(inBase))
+	return outFee.Add(outFee, inFee)
+}
+
+// feeCovers: the fee rule for an HTLC of `in` msat forwarded as `out` msat.
+func (w *c08World) feeCovers(in, out int64) bool {
+	d := new(big.Int).Sub(big.NewInt(in), big.NewInt(out))
+	return d.Sign() >= 0 && d.Cmp(w.c08RequiredFee(out)) >= 0
 }
 
 // guard runs f on its own goroutine so that a fixture t.Fatal (runtime.Goexit in the
@@ -841,6 +926,19 @@ func (w *c08World) onBobSends(wi int, m lnwire.Message) {
 			w.violate(fmt.Sprintf("forwarder/overforward/dir=%s", p.Dir),
 				fmt.Sprintf("Bob forwards %d msat for payment %d, more than incoming %d minus fee %d", msg.Amount, k, p.htlcAmt, p.fee))
 		}
+		// policy clause, accepting side: whatever path handed the add to the switch (live,
+		// replayed from a forwarding package after a restart, retransmitted), an HTLC is
+		// offered downstream only if the fee Bob keeps covers what his policy demands and
+		// the amount is not below his minimum
+		if !w.feeCovers(int64(p.htlcAmt), int64(msg.Amount)) {
+			w.violate(fmt.Sprintf("policy/forwarded-underpaid/dir=%s/%s", p.Dir, w.class()),
+				fmt.Sprintf("Bob offers payment %d downstream (incoming %d msat, outgoing %d msat: he keeps %d msat) although his policy demands a fee of %v msat for that amount",
+					k, p.htlcAmt, msg.Amount, int64(p.htlcAmt)-int64(msg.Amount), w.c08RequiredFee(int64(msg.Amount))))
+		}
+		if msg.Amount < w.hn.globalPolicy.MinHTLCOut {
+			w.violate(fmt.Sprintf("policy/forwarded-below-minimum/dir=%s/%s", p.Dir, w.class()),
+				fmt.Sprintf("Bob offers payment %d downstream with %d msat, below his policy's minimum of %d msat", k, msg.Amount, w.hn.globalPolicy.MinHTLCOut))
+		}
 	case *lnwire.UpdateFulfillHTLC:
 		h := sha256.Sum256(msg.PaymentPreimage[:])
 		k := w.payOfRemoval(wi, msg.ID, h)
@@ -1015,6 +1113,18 @@ func (w *c08World) launch(k int) {
 	}
 	amt := lnwire.MilliSatoshi(p.Amt)
 	htlcAmt, timelock, hops := generateHops(amt, testStartingHeight, path...)
+	if w.scn.Policy != nil {
+		// the sender offers what Bob's configured policy demands, plus FeeDelta (the
+		// onion still tells Bob to forward amt; the fixture's generateHops knows no
+		// inbound fees)
+		offer := new(big.Int).Add(big.NewInt(p.Amt), w.c08RequiredFee(p.Amt))
+		offer.Add(offer, big.NewInt(p.FeeDelta))
+		if !offer.IsInt64() || offer.Int64() < p.Amt {
+			w.dead = fmt.Sprintf("payment %d: policy and fee_delta give the first-hop amount %v below the payment amount", k, offer)
+			return
+		}
+		htlcAmt = lnwire.MilliSatoshi(offer.Int64())
+	}
 	p.htlcAmt, p.fee = htlcAmt, htlcAmt-amt
 	firstHop := path[0].ShortChanID()
 	blob, err := generateRoute(hops...)
@@ -1601,7 +1711,7 @@ func (w *c08World) Do(a string) (err error) {
 		}
 	case a == "rb":
 		w.faultsUsed++
-		w.frozen = -1
+		w.frozen = w.slowRestartWire()
 		if err := w.restartBob(); err != nil {
 			w.dead = err.Error()
 		}
@@ -1644,7 +1754,7 @@ func (w *c08World) Do(a string) (err error) {
 			w.crashSaturated++
 		}
 		w.logf("    %s: Bob's database refused %d write transaction(s) after the %d-th of %q; restarting Bob from disk", a, w.cdb.Refused()-r0, k, def)
-		w.frozen = -1
+		w.frozen = w.slowRestartWire()
 		if err := w.restartBob(); err != nil {
 			w.dead = err.Error()
 		}
@@ -1700,6 +1810,16 @@ func (w *c08World) Do(a string) (err error) {
 	return nil
 }
 
+// slowRestartWire: the wire that is slow to come back after a restart of Bob (-1: none).
+func (w *c08World) slowRestartWire() int {
+	for wi, n := range c08WireName {
+		if n == w.scn.SlowRestart && w.scn.SlowRestart != "" {
+			return wi
+		}
+	}
+	return -1
+}
+
 func c08Short(s string) string {
 	if i := strings.IndexByte(s, '\n'); i >= 0 {
 		s = s[:i]
@@ -1715,6 +1835,31 @@ func (w *c08World) stepOracle() {
 	for _, p := range w.pays {
 		if p.bobFailedIn {
 			w.checkTwinGone(p, "after Bob failed the incoming HTLC")
+		}
+	}
+	// policy clause, rejecting side: a policy failure must name a rule that is actually
+	// violated. fee_insufficient, amount_below_minimum and incorrect_cltv_expiry are failures
+	// of a FORWARDING hop (the final hop has codes of its own), and Bob is the only forwarder
+	// (the fixture's mock deobfuscator reports source index 1 for every failure, so the
+	// message type, not the index, identifies him).
+	for _, p := range w.pays {
+		for _, r := range w.resultsOf(p) {
+			if !strings.HasPrefix(r, "failed:fwd@") {
+				continue
+			}
+			switch {
+			case strings.HasSuffix(r, "FailFeeInsufficient") && w.feeCovers(int64(p.htlcAmt), p.Amt):
+				w.violate(fmt.Sprintf("policy/spurious-fee-insufficient/dir=%s/%s", p.Dir, w.class()),
+					fmt.Sprintf("payment %d was failed by Bob with fee_insufficient although it offers %d msat for forwarding %d msat, i.e. a fee of %d msat, and his policy demands %v msat",
+						p.idx, p.htlcAmt, p.Amt, int64(p.htlcAmt)-p.Amt, w.c08RequiredFee(p.Amt)))
+			case strings.HasSuffix(r, "FailAmountBelowMinimum") && lnwire.MilliSatoshi(p.Amt) >= w.hn.globalPolicy.MinHTLCOut:
+				w.violate(fmt.Sprintf("policy/spurious-amount-below-minimum/dir=%s/%s", p.Dir, w.class()),
+					fmt.Sprintf("payment %d was failed by Bob with amount_below_minimum although %d msat is not below his minimum of %d msat", p.idx, p.Amt, w.hn.globalPolicy.MinHTLCOut))
+			case strings.HasSuffix(r, "FailIncorrectCltvExpiry"):
+				// every route of the batches is built with exactly Bob's time-lock delta
+				w.violate(fmt.Sprintf("policy/spurious-incorrect-cltv/dir=%s/%s", p.Dir, w.class()),
+					fmt.Sprintf("payment %d was failed by Bob with incorrect_cltv_expiry although its route leaves him exactly his time-lock delta", p.idx))
+			}
 		}
 	}
 	// no channel end may ever show a negative/overflowing balance or lose value
